@@ -319,7 +319,7 @@ static void FLA_GHASH_128_mul(uint32 *X, const uint32 *Y, uint32 moduli)
 
     for (i = 0; i < 128; i++)
     {
-        if (Y[i / 32] & (1 << (31 - i % 32)))
+        if (Y[i / 32] & (1U << (31 - i % 32)))
         {
             X[0] ^= t[0];
             X[1] ^= t[1];
